@@ -75,6 +75,40 @@ def make_source(nr, nc, nanpairs, flavour):
                              'cat': _container([enc('cat', cat(c + 1), flavour) for c in range(nc)], flavour)})
 
 
+class DrawMismatch(Exception):
+    """the code did not ask for the draw the specification describes (randint(0, G, size=G))"""
+
+
+class Randint:
+    """stand-in for numpy.random.randint: forces the outcomes chosen by TLC, or observes real ones"""
+
+    def __init__(self, forced=None):
+        self.forced = list(forced) if forced is not None else None
+        self.seen = []
+        self._real = np.random.randint
+
+    def __call__(self, low, high=None, size=None, dtype=int):
+        if self.forced is None:
+            out = self._real(low, high, size=size, dtype=dtype)
+            self.seen.append({'low': int(low), 'high': None if high is None else int(high),
+                              'size': size if size is None else int(np.prod(size)),
+                              'out': [int(x) for x in np.atleast_1d(out)]})
+            return out
+        if not self.forced:
+            raise DrawMismatch('more random draws requested than the specification describes')
+        d = self.forced.pop(0)
+        if low != 0 or high != len(d) or size is None or int(np.prod(size)) != len(d):
+            raise DrawMismatch(f'randint({low}, {high}, size={size}) but there are {len(d)} groups to draw')
+        return np.array(d, dtype=int)
+
+    def __enter__(self):
+        np.random.randint = self
+        return self
+
+    def __exit__(self, *a):
+        np.random.randint = self._real
+
+
 NULL = {'rows': [], 'pats': [], 'ridx': [], 'pidx': [], 'pinv': [], 'meas': 0, 'pcat': 0, 'vec': []}
 
 
@@ -192,6 +226,48 @@ def apply_event(heap, e, flavour, maxobj, scratch=None, variant=0):
         new = ob.subset_pattern(None if (by == 'index' and variant % 2) else by, v)
     elif op == 'subsample_pattern':
         new = ob.subsample_pattern(None if (by == 'index' and variant % 2) else by, values(by))
+    elif op in ('boot_rdm', 'boot_pattern', 'boot_both'):
+        from rsatoolbox.inference import bootstrap as B
+        forced = None
+        if not e.get('observe'):
+            forced = [[v - 1 for v in vals]] + ([[v - 1 for v in e['vals2']]] if op == 'boot_both' else [])
+        with Randint(forced) as rnd:
+            if op == 'boot_rdm':
+                new, ridx_ret = B.bootstrap_sample_rdm(ob, by)
+                pidx_ret = None
+            elif op == 'boot_pattern':
+                new, pidx_ret = B.bootstrap_sample_pattern(ob, by)
+                ridx_ret = None
+            else:
+                new, ridx_ret, pidx_ret = B.bootstrap_sample(ob, by, e['by2'])
+        if forced is not None and rnd.forced:
+            raise DrawMismatch('fewer random draws requested than the specification describes')
+        if e.get('observe'):
+            draws = [d['out'] for d in rnd.seen]
+            if len(draws) != (2 if op == 'boot_both' else 1):
+                raise DrawMismatch(f'{len(draws)} calls of randint')
+            e['vals'] = [x + 1 for x in draws[0]]
+            if op == 'boot_both':
+                e['vals2'] = [x + 1 for x in draws[1]]
+            for d in rnd.seen:
+                if d['low'] != 0 or d['high'] != d['size']:
+                    raise DrawMismatch(f"randint({d['low']}, {d['high']}, size={d['size']})")
+            del e['observe']
+        pby = by if op == 'boot_pattern' else e['by2']
+        ret = [[], []]
+        for k, (arr, name) in enumerate(((ridx_ret, by), (pidx_ret, pby))):
+            if arr is not None:
+                if not isinstance(arr, np.ndarray):
+                    raise ProjectionError('ret', f'returned indices are {type(arr).__name__}, not an index array')
+                ret[k] = [dec(name, v) for v in arr]
+        heap[free_slot(heap, maxobj)] = new
+        if pidx_ret is not None:
+            # clause e: resampling a prediction with the returned indices gives the sample's condition order
+            pred = ob.subsample_pattern(pby, pidx_ret)
+            if [dec('cond', v) for v in pred.pattern_descriptors['cond']] != \
+                    [dec('cond', v) for v in new.pattern_descriptors['cond']]:
+                raise ProjectionError('pred-order', 'prediction resampled with the returned indices has another condition order')
+        return ('ret', ret, o)
     elif op == 'reorder':
         p = [v - 1 for v in vals]
         ob.reorder(p if variant % 2 == 0 else np.array(p))
@@ -280,7 +356,11 @@ def replay(hist, const, flavour, variant=0, scratch=None):
     for k, st in enumerate(hist):
         e = st['ev']
         try:
-            extra = apply_event(heap, e, flavour, maxobj, scratch=scratch, variant=variant + k)
+            extra = apply_event(heap, dict(e), flavour, maxobj, scratch=scratch, variant=variant + k)
+        except DrawMismatch as ex:
+            return k, f"{e['op']}/draw", str(ex)
+        except ProjectionError as ex:
+            return k, f"{e['op']}/{ex.field}", str(ex)
         except Exception as ex:  # the specification says the operation is admissible here
             return k, f"{e['op']}/raises/{type(ex).__name__}", f'{type(ex).__name__}: {ex}'
         post = st['post']
@@ -303,10 +383,14 @@ def replay(hist, const, flavour, variant=0, scratch=None):
             if f:
                 where = e['op'] if is_result else f"frame/{e['op']}"
                 return k, f'{where}/{f}', {'slot': o, 'real': real[f], 'spec': spec_ob[f]}
-        if extra is not None:
+        if extra is not None and extra[0] == 'df':
             msg = check_df(extra[1], norm_abs(post[extra[2] - 1]), flavour)
             if msg:
                 return k, 'to_df/rows', msg
+        if extra is not None and extra[0] == 'ret':
+            want = [list(x) for x in st['ret']]
+            if extra[1] != want:
+                return k, f"{e['op']}/returned-indices", {'real': extra[1], 'spec': want}
     return None
 
 
@@ -333,14 +417,14 @@ def random_trace(rng, const, flavour, length, ops, scratch=None):
         op = str(rng.choice(ops))
         nr, npat = len(a['rows']), len(a['pats'])
         free = free_slot(heap, maxobj) is not None
-        e = {'op': op, 'o': o, 'o2': 0, 'by': '', 'vals': []}
+        e = {'op': op, 'o': o, 'o2': 0, 'by': '', 'vals': [], 'by2': '', 'vals2': []}
 
         def col(kind, by):
             if kind == 'r':
                 return {'index': a['ridx'], 'subj': a['rows'], 'grp': [grp(r) for r in a['rows']]}[by]
             return {'index': a['pidx'], 'cond': a['pats'], 'cat': [cat(c) for c in a['pats']]}[by]
-        if op in ('getitem', 'subset', 'subsample', 'subset_pattern', 'subsample_pattern', 'copy', 'concat',
-                  'from_partials', 'permute', 'inverse_permute', 'dict', 'matrices', 'saveload') and not free:
+        if op in ('boot_rdm', 'boot_pattern', 'boot_both', 'getitem', 'subset', 'subsample', 'subset_pattern',
+                  'subsample_pattern', 'copy', 'concat', 'from_partials', 'permute', 'inverse_permute', 'dict', 'matrices', 'saveload') and not free:
             continue
         if op == 'getitem':
             if npat < 2:
@@ -366,6 +450,22 @@ def random_trace(rng, const, flavour, length, ops, scratch=None):
             e['vals'] = v
             if op == 'subsample_pattern' and sum(c.count(x) for x in v) > maxpats:
                 continue
+        elif op in ('boot_rdm', 'boot_pattern', 'boot_both'):
+            # the draw is made by the real numpy.random.randint (seeded from rng) and observed
+            if op != 'boot_pattern':
+                e['by'] = str(rng.choice(['index', 'subj', 'grp']))
+                if max(col('r', e['by']).count(x) for x in set(col('r', e['by']))) * len(set(col('r', e['by']))) > maxrows:
+                    continue
+            pby = str(rng.choice(['index', 'cond', 'cat'] if a['pcat'] else ['index', 'cond']))
+            if op != 'boot_rdm':
+                if max(col('p', pby).count(x) for x in set(col('p', pby))) * len(set(col('p', pby))) > maxpats:
+                    continue
+                if op == 'boot_pattern':
+                    e['by'] = pby
+                else:
+                    e['by2'] = pby
+            e['observe'] = True
+            np.random.seed(int(rng.integers(0, 2**31 - 1)))
         elif op in ('reorder', 'permute'):
             e['vals'] = [int(x) + 1 for x in rng.permutation(npat)]
         elif op == 'sort_alpha':
@@ -400,13 +500,20 @@ def random_trace(rng, const, flavour, length, ops, scratch=None):
                 continue
         try:
             extra = apply_event(heap, e, flavour, maxobj, scratch=scratch, variant=int(rng.integers(0, 12)))
+        except (DrawMismatch, ProjectionError) as ex:
+            e.pop('observe', None)
+            fld = 'draw' if isinstance(ex, DrawMismatch) else ex.field
+            events.append({'ev': e, 'post': None, 'error': f'projection/{fld}: {ex}'})
+            break
         except Exception as ex:
+            e.pop('observe', None)
             events.append({'ev': e, 'post': None, 'error': f'{type(ex).__name__}: {ex}'})
             break
+        ret = extra[1] if (extra is not None and extra[0] == 'ret') else [[], []]
         try:
             post = project_heap(heap, maxobj)
         except ProjectionError as pe:
             events.append({'ev': e, 'post': None, 'error': f'projection/{pe.field}: {pe}'})
             break
-        events.append({'ev': e, 'post': post})
+        events.append({'ev': e, 'post': post, 'ret': ret})
     return events
